@@ -73,6 +73,16 @@ static void do_ed(vio::Cursor & c, vio::Out & o) {
     for (const auto & x : v) for (size_t k = 0; k < d; ++k) o << x[k];
 }
 
+// edi <n> <nOld> <d> <vectors>: extractDominatedIncremental(begin, begin + nOld, end)
+static void do_edi(vio::Cursor & c, vio::Out & o) {
+    const size_t n = c.nextSize(), nOld = c.nextSize(), d = c.nextSize();
+    std::vector<Vector> v;
+    for (size_t i = 0; i < n; ++i) { Vector x(d); for (size_t k = 0; k < d; ++k) x[k] = c.nextDouble(); v.push_back(x); }
+    auto [oldEnd, mid, end] = extractDominatedIncremental(std::begin(v), std::begin(v) + nOld, std::end(v));
+    o << (size_t) std::distance(std::begin(v), oldEnd) << (size_t) std::distance(std::begin(v), mid) << (size_t) std::distance(std::begin(v), end);
+    for (const auto & x : v) for (size_t k = 0; k < d; ++k) o << x[k];
+}
+
 // SARSOP's witness/max list helpers are free functions with external linkage defined in SARSOP.cpp
 // (not declared in any header).
 namespace AIToolbox::POMDP {
@@ -161,6 +171,7 @@ int main(int argc, char ** argv) {
         if (kind == "ut") do_ut(c, o);
         else if (kind == "match" || kind == "matchoob") do_match(c, o);
         else if (kind == "ed") do_ed(c, o);
+        else if (kind == "edi") do_edi(c, o);
         else if (kind == "wit") do_wit(c, o);
         else if (kind == "fibmax" || kind == "fibmaxz") do_fibmax(c, o);
         else if (kind == "bg") do_bg(c, o);
